@@ -38,7 +38,7 @@ package labels
 //@   loop 1 invariant rangeindex < len(ms) && (forall k int :: 0 <= k && k <= rangeindex ==> !deref(ms[k]).Matches(lset))
 
 //@ func NewMatcher
-//@   props C16
+//@   props C16 C07
 //@   ensures [fields] result1 == nil ==> result0 != nil && fresh(result0) && result0.Type == t && result0.Name == n && result0.Value == v
 //@   ensures [regexp-compiled] result1 == nil && (t == MatchRegexp || t == MatchNotRegexp) ==> result0.re != nil
 //@   ensures [error-means-nothing] result1 != nil ==> result0 == nil
